@@ -94,8 +94,18 @@ RelevantFlags(d) ==
     \cup UNION {{<<"code", Treat("code", d.methods[i].code[j])[2]>> : j \in DOMAIN d.methods[i].code} : i \in DOMAIN d.methods}
     \cup UNION {{<<"rc", Treat("rc", d.rcs[i][j])[2]>> : j \in DOMAIN d.rcs[i]} : i \in DOMAIN d.rcs}
 
-MDesc(base, flip) == [base |-> base, flip |-> flip]
-MaskOfDesc(md) == MaskFlip(md.base = "all", md.flip)
+MDesc(base, flip) == [base |-> base, flip |-> flip, alt |-> {}]
+(* alt: {} or {[base, flip]}: the mask of the visitors of the members with an even ordinal *)
+MDescAlt(base, flip, abase, aflip) == [base |-> base, flip |-> flip, alt |-> {[base |-> abase, flip |-> aflip]}]
+MaskOfDesc(md) ==
+    IF md.alt = {} THEN MaskFlip(md.base = "all", md.flip)
+    ELSE LET a == CHOOSE a \in md.alt : TRUE IN WithAlt(MaskFlip(md.base = "all", md.flip), MaskFlip(a.base = "all", a.flip))
+(* member visitors with different interests: the first member all / the second nothing and the other way round, and one  *)
+(* flag of a member level (of the shape) differing between them, in both directions                                      *)
+MemberFlags(d) == {x \in RelevantFlags(d) : x[1] # "class"}
+Alts(d) == {MDescAlt("all", {}, "none", {}), MDescAlt("none", {<<"class", "fields">>, <<"class", "methods">>, <<"class", "record">>}, "all", {}),
+            MDescAlt("all", {}, "none", {<<"method", "code">>}), MDescAlt("none", {<<"class", "methods">>, <<"method", "code">>}, "all", {})}
+           \cup {MDescAlt("all", {}, "all", {x}) : x \in MemberFlags(d)} \cup {MDescAlt("all", {x}, "all", {}) : x \in MemberFlags(d)}
 Singles(d) == {MDesc(b, {x}) : b \in {"all", "none"}, x \in RelevantFlags(d)}
 Pairs(d, bases) == {MDesc(b, {x, y}) : b \in bases, x \in RelevantFlags(d), y \in RelevantFlags(d)}   \* x = y gives a single again
 Plainest == {MDesc("all", {}), MDesc("none", {})}
@@ -133,17 +143,18 @@ PickMask ==
     /\ stage = "mask"
     /\ \E md \in (IF fam = "mask" THEN Plainest \cup Singles(descs[1]) \cup Pairs(descs[1], IF Tier = 0 THEN {"all"} ELSE {"all", "none"})
                                          \cup {MDesc("none", {<<"class", "methods">>, <<"method", "code">>})}      \* the code and nothing optional of it
+                                         \cup Alts(descs[1])
                   ELSE Plainest \cup {MDesc("all", {<<"method", "code">>}), MDesc("none", {<<"class", "fields">>, <<"class", "methods">>})}) :
           mdesc' = md
     /\ stage' = "decl"
     /\ UNCHANGED <<fam, descs, consumer, m>>
 
 (* the consumer and what it declines; `()` and SimpleClassVisitor come with their own interests *)
-Consumers == IF fam = "mask" /\ Cardinality(mdesc.flip) > 0 THEN {"rec"} ELSE {"rec", "simple", "unit"}
+Consumers == IF fam = "mask" /\ (Cardinality(mdesc.flip) > 0 \/ mdesc.alt # {}) THEN {"rec"} ELSE {"rec", "simple", "unit"}
 DeclChoices(co) ==
     IF co = "unit" THEN {NoDeclines}
     ELSE IF fam = "mask"
-    THEN (IF Cardinality(mdesc.flip) <= 1 THEN (IF Tier = 0 THEN FewDeclines(descs[1]) ELSE AllDeclines(descs[1]))
+    THEN (IF Cardinality(mdesc.flip) <= 1 /\ mdesc.alt = {} THEN (IF Tier = 0 THEN FewDeclines(descs[1]) ELSE AllDeclines(descs[1]))
           ELSE (IF Tier = 0 THEN OneDeclines(descs[1]) ELSE FewDeclines(descs[1])))
     ELSE {[classes |-> cs, fields |-> {}, methods |-> ms, codes |-> ks, rcs |-> {}] :
              cs \in SUBSET (1..Len(descs)), ms \in {{}, {1}}, ks \in (IF co = "rec" THEN {{}, {1}} ELSE {{}})}
@@ -192,7 +203,8 @@ InvFilter ==
 SetSeq(S) == SetToSortSeq(S, <)
 DJson(D) == [classes |-> SetSeq(D.classes), fields |-> SetSeq(D.fields), methods |-> SetSeq(D.methods),
              codes |-> SetSeq(D.codes), rcs |-> SetSeq(D.rcs)]
-MJson(md) == [base |-> md.base, flip |-> SetToSeq(md.flip)]
+MJson(md) == IF md.alt = {} THEN [base |-> md.base, flip |-> SetToSeq(md.flip)]
+             ELSE LET a == CHOOSE a \in md.alt : TRUE IN [base |-> md.base, flip |-> SetToSeq(md.flip), alt |-> [base |-> a.base, flip |-> SetToSeq(a.flip)]]
 Observed(k) == Items(ConsumerView(consumer, m.events[k]))
 
 Emit ==
